@@ -4,6 +4,8 @@
                     start a symbol for the text parser, every character it accepts inside a punctuation
                     symbol continues a symbol for the text parser's scanners, and the macro's `#` identifiers
                     {t, f, nil} are `#` tokens of the text parser with the same meaning
+  R-MACRO-SPACING   Alone ends a punctuation symbol, Joint continues it
+  R-MACRO-DOT       inside a list only a `.` standing Alone is consumed as the dotted-tail marker
 Necessary: a character the macro turns into a symbol but the text parser rejects makes the two disagree on
 that one-token S-expression.  Everything else (Spacing-driven joining, dotted-tail flattening, literal
 typing, unquote) relates two parsers over a language and is not decided.
